@@ -63,7 +63,11 @@ fn decide(
         let dc = hit != hit2 || (hit && dist > 0.0) || (!hit && dist < 2e-5);
         return PairVerdict { a: lo, b: hi, r, dist, collide: hit, dont_care: dc };
     }
-    let band = 1e-4f32 * r.max(1.0);
+    // Oracle and library evaluate the same parry query with the same arguments, so the band only
+    // has to absorb the rounding of the library's conservative box pre-filter (f32 arithmetic on
+    // metre-sized coordinates) and of an implementation that orders the two bodies differently.
+    // It must stay well below the smallest safety distances in use (micrometres are legal).
+    let band = (1e-4f32 * r).max(5e-6);
     let dc = (dist - r).abs() <= band;
     PairVerdict { a: lo, b: hi, r, dist, collide: dist <= r, dont_care: dc }
 }
